@@ -124,6 +124,16 @@ DRV_CMD(huff_gen, "huff.gen") {
   uint64_t len = toU64(need(a, 2)), seed = toU64(need(a, 3)), every = toU64(need(a, 4));
   if (T < 2 || T > 20000 || every == 0) throw BadOp();
   AdaptiveHuffmanTree t(static_cast<AdaptiveHuffmanTree::NodeType>(T)); RefTree ref(T);
+  // optional 6th argument k: k updates with out-of-range symbols first; each must be refused and must cost nothing
+  // (the capacity of the tree is 65535 - T accepted updates whatever was refused before)
+  if (a.size() > 5) {
+    uint64_t k = toU64(a[5]);
+    for (uint64_t j = 0; j < k; ++j) {
+      uint64_t bad = T + (j * 37) % 1000; if (bad > 65535) bad = 65535;
+      try { t.UpdateCodeCount(static_cast<AdaptiveHuffmanTree::NodeType>(bad)); return "bad-accepted@" + std::to_string(j); }
+      catch (const std::exception&) {}
+    }
+  }
   Run run; uint64_t state = seed;
   for (uint64_t i = 0; i < len; ++i) {
     unsigned code = genCode(kind, T, i, state);
